@@ -3,7 +3,7 @@ import math, re, struct
 from fractions import Fraction
 
 XP_WS = ' \t\r\n'
-NUM_RE = re.compile(r'^[ \t\r\n]*(-?)(\d+(?:\.\d*)?|\.\d+)[ \t\r\n]*$')
+NUM_RE = re.compile(r'^[ \t\r\n]*(-?)([0-9]+(?:\.[0-9]*)?|\.[0-9]+)[ \t\r\n]*$')
 LEX_RE = re.compile(r'^-?(0|[1-9][0-9]*)(\.[0-9]*[1-9])?$')
 
 
